@@ -2,10 +2,12 @@
 package c14
 
 import (
+	"crypto/tls"
 	"errors"
 	"fmt"
 	"io"
 	"log"
+	"net"
 	"runtime"
 	"strings"
 	"sync"
@@ -38,13 +40,14 @@ type Event struct {
 type Case struct {
 	Mode   string  `json:"mode"` // conn | client (sm.Client with the watchdog enabled)
 	Events []Event `json:"events"`
-	Term   string  `json:"term"` // eof | read-error | garbage-small | garbage-large | local-close
+	Term   string  `json:"term"` // eof | read-error | garbage-small | garbage-large | local-close | last-with-eof | last-with-error | handler-panic | tls-handshake-failure
 	Late   int     `json:"late"` // CloseNotify requests made after termination
 }
 
 const (
 	promptly = 3 * time.Second
 	markBit  = 0x40000000
+	panicBit = 0x20000000 // the handler of this message panics
 )
 
 func appMessage(seq int, marked bool) []byte {
@@ -84,6 +87,9 @@ type harness struct {
 }
 
 func (h *harness) handler(c diam.Conn, m *diam.Message) {
+	if m.Header.HopByHopID&panicBit != 0 {
+		panic("scripted handler panic")
+	}
 	seq := int(m.Header.HopByHopID &^ markBit)
 	var ch <-chan struct{}
 	if m.Header.HopByHopID&markBit != 0 {
@@ -223,7 +229,12 @@ func runCase(c Case) *ev.Failure {
 		mux.HandleFunc("ALL", h.handler)
 		drain(mux.ErrorReports())
 		var err error
-		if conn, err = diam.NewConn(mc, "", mux, dict.Default); err != nil {
+		var rw net.Conn = mc
+		if c.Term == "tls-handshake-failure" {
+			// a TLS connection whose peer does not speak TLS: the handshake fails in the serve loop
+			rw = tls.Client(mc, &tls.Config{InsecureSkipVerify: true})
+		}
+		if conn, err = diam.NewConn(rw, "", mux, dict.Default); err != nil {
 			return ev.Failf("harness-conn", "%v", err)
 		}
 	}
@@ -292,6 +303,23 @@ func runCase(c Case) *ev.Failure {
 		mc.Feed(junk)
 	case "local-close":
 		conn.Close()
+	case "last-with-eof", "last-with-error":
+		// one more valid message whose last bytes arrive together with the end of the stream
+		mc.ErrWithData = true
+		var e error = io.EOF
+		if c.Term == "last-with-error" {
+			e = errors.New("connection reset by peer")
+		}
+		mc.FeedWithErr(e, appMessage(sent, false))
+		sent++
+	case "handler-panic":
+		m := appMessage(sent, false)
+		// set the panic bit in the hop-by-hop id (bytes 12..15)
+		m[12] |= byte(panicBit >> 24)
+		mc.Feed(m)
+	case "tls-handshake-failure":
+		mc.Feed([]byte("220 mail.example ESMTP ready\r\n"))
+		mc.FeedEOF()
 	}
 	if !mc.WaitClosed(promptly) {
 		cleanup()
@@ -326,7 +354,7 @@ func runCase(c Case) *ev.Failure {
 	return nil
 }
 
-var terms = []string{"eof", "read-error", "garbage-small", "garbage-large", "local-close"}
+var terms = []string{"eof", "read-error", "garbage-small", "garbage-large", "local-close", "last-with-eof", "last-with-error", "handler-panic"}
 
 func classify(c Case) (bool, []string) {
 	cl := []string{"mode:" + c.Mode, "term:" + c.Term}
@@ -453,3 +481,17 @@ func TestC14ClientWatchdog(t *testing.T) {
 
 func TestC14Keep(t *testing.T) { ev.RunKeep(t, "C14") }
 func TestReplay(t *testing.T)  { ev.Replay(t) }
+
+// A TLS connection whose handshake fails (the peer answers the ClientHello with an SMTP
+// banner and hangs up): the connection terminates without ever reading a message.
+func TestC14TLSHandshakeFailure(t *testing.T) {
+	prop.Enumerate(t, true, func(yield func(Case) bool) {
+		for _, evs := range [][]Event{nil, {{Kind: "req-now"}}, {{Kind: "req-parked"}}, {{Kind: "req-now"}, {Kind: "req-parked"}}} {
+			for late := 0; late <= 2; late++ {
+				if !yield(Case{Mode: "conn", Events: evs, Term: "tls-handshake-failure", Late: late}) {
+					return
+				}
+			}
+		}
+	})
+}
